@@ -967,6 +967,10 @@ func changeListOrMapValue(ctx *Task, obj any, index []*ast.Node, val any, dtype 
 					"key type is not string", node.StartPos())
 			}
 			if idx+1 == lenIdx {
+				if ast.Contains(val, curVal) {
+					return nil, ast.Invalid, NewRunError(ctx,
+						"a map cannot be stored into itself", node.StartPos())
+				}
 				curVal[key.(string)] = val
 				return val, dtype, nil
 			}
@@ -995,6 +999,10 @@ func changeListOrMapValue(ctx *Task, obj any, index []*ast.Node, val any, dtype 
 			}
 
 			if idx+1 == lenIdx {
+				if ast.Contains(val, curVal) {
+					return nil, ast.Invalid, NewRunError(ctx,
+						"a list cannot be stored into itself", node.StartPos())
+				}
 				curVal[keyInt] = val
 				return val, dtype, nil
 			}
